@@ -30,7 +30,10 @@ int main() {
 			else if (op == 6) {
 				ll k = c.next();
 				// canaries around the output buffer: copy must not write more than it reports
+				// the destination holds line feeds beforehand (a re-used buffer): bytes that copy() does not write must not be counted as
+				// extracted newlines (seeded C09-r12: the newline count taken over the requested range instead of the copied bytes)
 				std::vector<char> buf((k > 0 ? (size_t)k : 0) + 16, (char)0x5a);
+				for (size_t q = 8; q + 8 < buf.size(); ++q) { buf[q] = '\n'; }
 				int r = str.copy(buf.data() + 8, (int)k);
 				o.add(r);
 				if (r > 0) o.addBytes(buf.data() + 8, (size_t)r);
